@@ -244,6 +244,29 @@ public:
     void discard(unsigned long long n) { r_.discard(n); }
 };
 
+// std::atomic_thread_fence inside namespace tlx.  ThreadSanitizer does not model
+// fences, so code that synchronises through "relaxed atomic + fence" would be
+// reported as racy although it is correct.  Under TSan a fence is therefore
+// annotated as a release and/or acquire operation on one global sync object: an
+// over-approximation of the happens-before a fence can create (it can only hide
+// a report, never invent one).  In every flavour the fence is a scheduling point.
+#if defined(__SANITIZE_THREAD__)
+extern "C" void __tsan_acquire(void* addr);
+extern "C" void __tsan_release(void* addr);
+#endif
+inline char g_fence_sync_object;
+inline void atomic_thread_fence_shim(::std::memory_order o) noexcept {
+    ::std::atomic_thread_fence(o);
+#if defined(__SANITIZE_THREAD__)
+    if (o == ::std::memory_order_acquire || o == ::std::memory_order_consume || o == ::std::memory_order_acq_rel ||
+        o == ::std::memory_order_seq_cst)
+        __tsan_acquire(&g_fence_sync_object);
+    if (o == ::std::memory_order_release || o == ::std::memory_order_acq_rel || o == ::std::memory_order_seq_cst)
+        __tsan_release(&g_fence_sync_object);
+#endif
+    rt_point();
+}
+
 } // namespace sim
 
 namespace tlx {
@@ -255,6 +278,7 @@ using condition_variable = ::sim::CondVar;
 template <class T>
 using atomic = ::sim::Atomic<T>;
 using minstd_rand = ::sim::SeededMinstd;
+inline void atomic_thread_fence(::std::memory_order o) noexcept { ::sim::atomic_thread_fence_shim(o); }
 namespace this_thread {
 using namespace ::std::this_thread;
 inline void yield() noexcept { ::sim::rt_yield(); }
